@@ -154,8 +154,8 @@ impl<'a> IrEmitter<'a> {
         if let IrExprKind::Var { name, .. } = &object.kind {
             let key = (name.to_string(), field.to_string());
             if self.enum_variant_fields.contains_key(&key) {
-                let type_ident = format_ident!("{}", name);
-                let f = format_ident!("{}", field);
+                let type_ident = format_ident!("{}", Self::escape_keyword(name));
+                let f = format_ident!("{}", Self::escape_keyword(field));
                 return Ok(quote! { #type_ident::#f });
             }
         }
@@ -168,7 +168,7 @@ impl<'a> IrEmitter<'a> {
                 .unwrap_or_else(|_| syn::Index::from(0));
             Ok(quote! { #o.#idx })
         } else {
-            let f = format_ident!("{}", field);
+            let f = format_ident!("{}", Self::escape_keyword(field));
             Ok(quote! { #o.#f })
         }
     }
